@@ -91,6 +91,7 @@ type TypeSpec struct {
 	Immutable map[string]bool
 	Ghost     map[string]string // ghost field -> "int"|"bool"
 	Invariant []Clause
+	SyncMapInv map[string]Clause // field -> predicate over k, v: what the sync.Map held by that field contains
 	ChanOpen  map[string]bool   // fields whose channel is declared never closed ('chan f open: ...'): closing it is an obligation failure
 	ChanInv   map[string]Clause // field -> predicate over v: every value sent on the channel held by that field satisfies it (obligation at sends, assumption at receives)
 	AssumedInv []Clause // assumed when the lock is taken / at inv(x); not checked (listed as assumptions)
@@ -769,6 +770,24 @@ func (sp *Specs) parseFile(path string, extern bool) error {
 				curT.ChanOpen[fld] = true
 			}
 			curT.ChanInv[fld] = c
+		case "syncmap":
+			// syncmap <field>: <predicate over k, v> - every entry stored in the sync.Map held by that field
+			// satisfies it (obligation at Store/LoadOrStore, assumption at Load/LoadOrStore/LoadAndDelete)
+			if curT == nil {
+				return fail(fmt.Errorf("syncmap outside type block"))
+			}
+			i := strings.Index(rest, ":")
+			if i < 0 {
+				return fail(fmt.Errorf("syncmap <field>: <predicate over k, v>"))
+			}
+			c, err := mkClause(strings.TrimSpace(rest[i+1:]))
+			if err != nil {
+				return fail(err)
+			}
+			if curT.SyncMapInv == nil {
+				curT.SyncMapInv = map[string]Clause{}
+			}
+			curT.SyncMapInv[strings.TrimSpace(rest[:i])] = c
 		case "assume-invariant":
 			if curT == nil {
 				return fail(fmt.Errorf("assume-invariant outside type block"))
